@@ -75,7 +75,7 @@ func Run(ctx *core.Ctx) {
 
 	// (c) free-running stress and (b) sampled schedules need nothing from TLC
 	bg(func() {
-		collect(runChild(ctx, &ChildInput{Phase: "stress", Seed: ctx.Seed, G: 16, R: 200, StressBundles: ctx.Pick(10, 80)}))
+		collect(runChild(ctx, &ChildInput{Phase: "stress", Seed: ctx.Seed, G: 16, R: 200, StressBundles: ctx.Pick(16, 120)}))
 	})
 	bg(func() {
 		collect(runChild(ctx, &ChildInput{Phase: "forced", Seed: ctx.Seed, RandBundles: ctx.Pick(60, 600), RandPerGroup: ctx.Pick(12, 20)}))
@@ -91,7 +91,7 @@ func Run(ctx *core.Ctx) {
 	} {
 		d := d
 		bg(func() {
-			cfg := fmt.Sprintf("CONSTANT Dev = {\"%s\"}\nCONSTANT CfgName = \"%s\"\nCONSTANT GSize = 2\nCONSTANT Small = {1, 5}\nINIT Init\nNEXT Next\n%s %s\nCHECK_DEADLOCK FALSE\n", d.dev, d.cfg, d.kind, d.prop)
+			cfg := fmt.Sprintf("CONSTANT Dev = {\"%s\"}\nCONSTANT CfgName = \"%s\"\nCONSTANT GSize = 2\nCONSTANT Small = {2, 5}\nINIT Init\nNEXT Next\n%s %s\nCHECK_DEADLOCK FALSE\n", d.dev, d.cfg, d.kind, d.prop)
 			res, err := ctx.RunTLC(core.TLCOpts{Module: "SoyConcurrent", Cfg: cfg, Workers: 1, Timeout: 3 * time.Minute, Label: "deviation:" + d.dev + "/" + d.prop})
 			if err != nil {
 				ctx.ToolError("deviation run %s: %v", d.dev, err)
@@ -129,6 +129,14 @@ func Run(ctx *core.Ctx) {
 			mu.Lock()
 			schedules += len(mf.Scheds)
 			mu.Unlock()
+			if f.g == 2 {
+				// the model's bundle also runs free under the race detector
+				sf := *mf
+				sf.Scheds = nil
+				bg(func() {
+					collect(runChild(ctx, &ChildInput{Phase: "stress", Seed: ctx.Seed, G: 16, R: 200, Families: []ModelFamily{sf}}))
+				})
+			}
 			collect(runChild(ctx, &ChildInput{Phase: "forced", Seed: ctx.Seed, Families: []ModelFamily{*mf}}))
 		})
 	}
@@ -142,7 +150,7 @@ func Run(ctx *core.Ctx) {
 // exploreSchedules runs TLC on the reference model: all interleavings for one
 // configuration and group size; returns the exported family.
 func exploreSchedules(ctx *core.Ctx, cfgName string, g int) (*ModelFamily, error) {
-	small := "{1, 5}" // groups of 3: quick over two of the smallest cases, thorough over all three
+	small := "{2, 5}" // groups of 3: quick over two of the smallest cases, thorough over all three
 	if ctx.Thorough() {
 		small = "{1, 2, 5}"
 	}
@@ -415,9 +423,10 @@ func validateSolo(ctx *core.Ctx, solo []SoloRender) {
 			if s.Diff != nil {
 				feat = "bytes-differ:shared-state-mutated:" + s.Diff.Own
 			}
-			ctx.Violation(core.Sig{Family: "concurrent-bytes", Feature: feat},
-				fmt.Sprintf("%s: a render run ALONE on a fresh bundle gives err=%v %q, the specification gives %s %q", s.Cfg.Name, s.Obs.Err, s.Obs.Out, m[2], o.Out),
-				map[string]interface{}{"kind": "solo", "cfg": s.Cfg, "files": s.Files, "prog": s.Prog, "observed": s.Obs, "specStatus": m[2], "specOut": o.Out, "sharedStateDiff": s.Diff})
+			what := fmt.Sprintf("%s: a render run ALONE on a fresh bundle gives err=%v %q, the specification gives %s %q", s.Cfg.Name, s.Obs.Err, s.Obs.Out, m[2], o.Out)
+			ctx.Violation(core.Sig{Family: "concurrent-bytes", Feature: feat}, what,
+				Mismatch{Kind: "solo", Family: "concurrent-bytes", Cfg: s.Cfg, Inputs: s.Inputs, Cases: []Case{s.Case}, Gor: 1, Case: s.Case,
+					Expected: Expect{m[2], o.Out}, Observed: s.Obs, Diff: s.Diff, What: what, Prog: s.Prog})
 		} else if m := reDoneB.FindStringSubmatch(t); m != nil {
 			lines, _ := strconv.Atoi(m[1])
 			skipped, _ := strconv.Atoi(m[3])
